@@ -61,14 +61,34 @@ fn main() {
     let started = Instant::now();
 
     if let Some(path) = replay {
-        let text = std::fs::read_to_string(&path).unwrap_or_else(|e| {
+        let raw = std::fs::read(&path).unwrap_or_else(|e| {
             eprintln!("cannot read {path}: {e}");
             std::process::exit(2);
         });
-        let doc: serde_json::Value = serde_json::from_str(&text).unwrap_or_else(|e| {
-            eprintln!("cannot parse {path}: {e}");
-            std::process::exit(2);
-        });
+        let as_json = std::str::from_utf8(&raw).ok().and_then(|t| serde_json::from_str::<serde_json::Value>(t).ok());
+        if as_json.is_none() {
+            match fuzzers::replay_raw(std::path::Path::new(&path)) {
+                Some(Ok(())) => {
+                    println!("replay passed: property={} file={}", ctx.prop, path);
+                    std::process::exit(0);
+                }
+                Some(Err(f)) => {
+                    println!("violation detail: {} :: {}", f.signature, f.message);
+                    println!("VIOLATION property={} replay={}", ctx.prop, path);
+                    std::process::exit(1);
+                }
+                None => {
+                    eprintln!("{path} is neither a JSON replay nor a fuzz artifact named fuzz-<target>-<hash>");
+                    std::process::exit(2);
+                }
+            }
+        }
+        let text = String::from_utf8(raw).unwrap();
+        // Raw libFuzzer artifacts / corpus files (name `fuzz-<target>-<hash>`) are replayed in-process.
+        if serde_json::from_str::<serde_json::Value>(&text).is_err() {
+            unreachable!();
+        }
+        let doc: serde_json::Value = serde_json::from_str(&text).unwrap();
         let sub = doc.get("sub").and_then(|v| v.as_str()).unwrap_or("").to_string();
         let case = doc.get("case").cloned().unwrap_or(serde_json::Value::Null);
         let res = dispatch_replay(&ctx, &sub, &case);
